@@ -291,14 +291,9 @@ pub struct Harness<'a> {
 impl<'a> Harness<'a> {
     fn new(name: &'static str, case: &'a PushCase) -> Self {
         let base = Env::new(&case.tape);
-        let scripted: u64 = case
-            .leaves
-            .iter()
-            .map(|l| l.ready.iter().filter(|b| **b).count() as u64 + l.fin as u64)
-            .sum::<u64>()
-            * 8
-            + case.tape.iter().filter(|b| **b).count() as u64
-            + case.src_pend.len() as u64;
+        // every Pending answer of a correct subject consumes at least one scripted Pending answer
+        // (leaf logs are added when a leaf is created, see `leaf_c`)
+        let scripted: u64 = case.tape.iter().filter(|b| **b).count() as u64 + case.src_pend.len() as u64;
         Harness {
             case,
             name,
@@ -318,6 +313,7 @@ impl<'a> Harness<'a> {
     /// A fresh recording leaf answering from the `idx`-th leaf log of the case.
     pub fn leaf_c<T: 'static, C>(&mut self, idx: usize, label: &str) -> (Leaf<T, C>, Rc<LeafState<T>>) {
         let log = self.case.leaves.get(idx).cloned().unwrap_or_default();
+        self.budget += 2 * (log.ready.iter().filter(|b| **b).count() as u64 + log.fin as u64);
         let st = Rc::new(LeafState {
             core: RefCell::new(LeafCore { label: label.to_string(), sig_label: format!("leaf{idx}"), fin_left: log.fin, log, ..Default::default() }),
             items: RefCell::new(vec![]),
@@ -1103,9 +1099,9 @@ fn enumerate_cases(s: &PushSubject, tier: Tier) -> impl Iterator<Item = PushCase
     let (len, logs): (usize, Vec<LeafLog>) = match (s.leaves, th) {
         (0, _) => (4, vec![LeafLog::default()]),
         (1, false) => (if s.uses_tape || s.two_ticks { 3 } else { 4 }, leaf_logs(6, 2, 2)),
-        (1, true) => (if s.uses_tape || s.two_ticks { 3 } else { 5 }, leaf_logs(7, 3, 2)),
+        (1, true) => (if s.uses_tape || s.two_ticks { 4 } else { 6 }, leaf_logs(7, 3, 2)),
         (2, false) => (3, leaf_logs(if s.uses_tape { 4 } else { 5 }, 2, if s.uses_tape { 1 } else { 2 })),
-        (2, true) => (if s.uses_tape { 3 } else { 4 }, leaf_logs(5, 2, 2)),
+        (2, true) => (if s.uses_tape { 3 } else { 4 }, leaf_logs(if s.uses_tape { 5 } else { 6 }, 2, 2)),
         (_, false) => (3, leaf_logs(4, 1, 1)),
         (_, true) => (3, leaf_logs(4, 2, 1)),
     };
@@ -1181,7 +1177,7 @@ fn case_strategy(leaves: u8) -> impl Strategy<Value = PushCase> {
 
 pub fn run(ctx: &mut Ctx) {
     let known: Known = ctx.known.known.keys().filter(|(p, _)| p == "C12").map(|(_, s)| s.clone()).collect();
-    ctx.rule = "Per subject (push combinator or chain ending in a fanout/unzip/demux tree; 46 subjects), one case = item list over \
+    ctx.rule = "Per subject (push combinator or chain ending in a fanout/unzip/demux tree; 45 subjects), one case = item list over \
                 {0,1,2} (second list for multi-tick subjects) x for every leaf a poll_ready answer log (every placement of <=k Pending \
                 among the first r calls) and 0..2 leading Pending answers of poll_finalize x pending tape of scripted inner \
                 streams/futures x variant flag (persist replay, resolve_futures waker, reduce init) x size_hint call, bounded-exhaustive; \
